@@ -1,6 +1,6 @@
 (** Protocol operations of the C01 widening (appended to [ops_C01] in Run/C01.v). *)
 From Coq Require Import ZArith List Bool String.
-From Low Require Import Lib.MachInt Lib.Bits Lib.BitSeq Lib.Val Model.Rank Model.Rank32 Model.RankOps
+From Low Require Import Lib.MachInt Lib.Bits Lib.BitSeq Lib.Val Model.Rank Model.Rank32 Model.RankOps Model.RankSession Spec.RankSessionSpec
   Spec.RankSpec Spec.RankLawsSpec.
 Import ListNotations.
 Open Scope string_scope.
@@ -44,7 +44,54 @@ Definition hstep_okb (s : hstep) : bool :=
 Definition spec_any_ok (for128 : bool) (ws : list Z) (i : Z) (obs : val) : bool :=
   if pos_in ws i && (negb for128 || (i <? 2^31 - 64)) then val_eqb (vq (spec_query ws i)) obs else true.
 
+Definition as_sstep (v : val) : option (flavour * list (Z * Z)) :=
+  match v with
+  | VL [f; runs] => match as_flavour f, as_pairs runs with Some f, Some r => Some (f, r) | _, _ => None end
+  | _ => None
+  end.
+Definition as_ssteps (v : val) : option (list (flavour * list (Z * Z))) :=
+  match v with VL l => opt_all (map as_sstep l) | _ => None end.
+Definition as_rles (v : val) : option (list (list (Z * Z))) :=
+  match v with VL l => opt_all (map as_pairs l) | _ => None end.
+Definition vsstep (p : list Z * option (Z * Z)) : val := VL [vzs (fst p); vq (snd p)].
+
 Definition ops_C01_wide : list opdef := [
+  (* a session: many index builds in one process, each returned index reported, used for one query and then
+     overwritten with junk by the caller; the whole list [reps] times *)
+  {| op_name := "bitmap.IndexRank/session";
+     op_run := fun a => match a with
+       | [steps; reps] => match as_ssteps steps, as_z reps with
+           | Some steps, Some reps =>
+               if (0 <=? reps) && (reps <=? 8) then VL (map vsstep (session steps (Z.to_nat reps))) else VBad
+           | _, _ => VBad end
+       | _ => VBad end;
+     op_spec := fun_spec (fun a => match a with
+       | [steps; reps] => match as_ssteps steps, as_z reps with
+           | Some steps, Some reps =>
+               VL (map (fun s => VL [vzs (spec_index_rle (fst s) (snd s));
+                                     vq (spec_query (expand_runs (snd s)) (64 * zlen (expand_runs (snd s)) - 1))])
+                       (repeat_list steps (Z.to_nat reps)))
+           | _, _ => VBad end
+       | _ => VBad end) |};
+  (* the same bitmaps indexed from several goroutines at once: sampled entries of what a single caller gets, and
+     one flag per concurrent call (1 = equal to the single caller's index) *)
+  {| op_name := "bitmap.IndexRank64/concurrent";
+     op_run := fun a => match a with
+       | [bms; tr; stride; ncalls] => match as_rles bms, as_bool tr, as_z stride, as_z ncalls with
+           | Some bms, Some tr, Some stride, Some ncalls =>
+               if (1 <=? stride) && (0 <=? ncalls) && (ncalls <=? 1000) then
+                 let r := concurrent bms tr (Z.to_nat stride) (Z.to_nat ncalls) in
+                 VL [VL (map vzs (fst r)); vzs (snd r)]
+               else VBad
+           | _, _, _, _ => VBad end
+       | _ => VBad end;
+     op_spec := fun_spec (fun a => match a with
+       | [bms; tr; stride; ncalls] => match as_rles bms, as_bool tr, as_z stride, as_z ncalls with
+           | Some bms, Some tr, Some stride, Some ncalls =>
+               VL [VL (map (fun runs => vzs (sample_every (Z.to_nat stride) (spec_index_rle (F64 tr) runs))) bms);
+                   vzs (repeat 1 (Z.to_nat ncalls))]
+           | _, _, _, _ => VBad end
+       | _ => VBad end) |};
   (* any int32 position, inside or outside the bitmap, through the int32-faithful model *)
   {| op_name := "bitmap.Rank/any";
      op_run := fun a => match a with
